@@ -130,8 +130,19 @@ class VTuple(V):
 
 
 class VList(V):
-    def __init__(self, n, at, ety, src=None):
-        self.n, self.at, self.ety, self.src = n, at, ety, src
+    """parts: for concatenations, [(offset T, sublist VList)] — equality is then stated part-wise so that
+    each part's own element terms trigger the instantiation."""
+    def __init__(self, n, at, ety, src=None, parts=None):
+        self.n, self.at, self.ety, self.src, self.parts = n, at, ety, src, parts
+
+
+def list_parts(v):
+    return v.parts if v.parts is not None else [(Int(0), v)]
+
+
+def concat_lists(ctx, a, b):
+    parts = list_parts(a) + [(Add(a.n, off), sub) for off, sub in list_parts(b)]
+    return VList(Add(a.n, b.n), lambda i, a=a, b=b: vite(ctx, Lt(i, a.n), a.at(i), b.at(Sub(i, a.n))), a.ety, parts=parts)
 
 
 class VSet(V):
@@ -422,6 +433,23 @@ def veq(ctx, a, b, st=None):
             return FALSE
         return And(*[veq(ctx, x, y, st) for x, y in zip(a.items, b.items)])
     if isinstance(a, VList) and isinstance(b, VList):
+        if a.parts is not None and b.parts is None:
+            a, b = b, a
+        if b.parts is not None and a.parts is None:
+            out = [Eq(a.n, b.n)]
+            for off, sub in b.parts:
+                if re.fullmatch(r"\d+", sub.n.s) and int(sub.n.s) <= 3:
+                    for k in range(int(sub.n.s)):
+                        out.append(veq(ctx, a.at(Add(off, Int(k))), sub.at(Int(k)), st))
+                    continue
+                j = ctx.bvar("j", "Int")
+                ctx.bound.append(j)
+                try:
+                    body = veq(ctx, a.at(Add(off, j)), sub.at(j), st)
+                finally:
+                    ctx.bound.pop()
+                out.append(ForAll([j], Implies(And(Le(Int(0), j), Lt(j, sub.n)), body)))
+            return And(*out)
         i = ctx.bvar("i", "Int")
         ctx.bound.append(i)
         try:
@@ -886,6 +914,7 @@ class Engine:
 
     def contains(self, container, x, st):
         c = self.ctx
+        container = self.unopt(container)
         if isinstance(container, VStr):
             if isinstance(x, VStr):
                 return app("contains", container.t, x.t, sort="Bool")
@@ -922,7 +951,7 @@ class Engine:
             if isinstance(a, VInt) and isinstance(b, VInt):
                 return VInt(Add(a.t, b.t))
             if isinstance(a, VList) and isinstance(b, VList):
-                return VList(Add(a.n, b.n), lambda i: vite(c, Lt(i, a.n), a.at(i), b.at(Sub(i, a.n))), a.ety)
+                return concat_lists(c, a, b)
         if isinstance(node.op, ast.Sub):
             if isinstance(a, VInt) and isinstance(b, VInt):
                 return VInt(Sub(a.t, b.t))
@@ -974,8 +1003,7 @@ class Engine:
             if out is None:
                 out = v
             else:
-                a, b = out, v
-                out = VList(Add(a.n, b.n), lambda i, a=a, b=b: vite(c, Lt(i, a.n), a.at(i), b.at(Sub(i, a.n))), a.ety)
+                out = concat_lists(c, out, v)
         if out is None:
             return VList(Int(0), lambda i: (_ for _ in ()).throw(Unsupported("element of empty list literal")), "str")
         return out
